@@ -281,6 +281,7 @@ def oracle(case, obs, check=("sem", "md", "edges", "refs", "early", "emitwait", 
             for e in op.get("md", []):
                 ref_of_tag[e["tag"]] = e.get("ref")
     any_error = False
+    tainted = set()          # nodes whose multi-output emission was aborted by an exception captured further up
     for k, (op, o) in enumerate(zip(case["ops"], obs)):
         log = o["log"]
         err = o["err"]
@@ -309,10 +310,18 @@ def oracle(case, obs, check=("sem", "md", "edges", "refs", "early", "emitwait", 
                 flush_snapshot = list(orc[op["node"]].cache)
                 exp_queue[op["node"]] = list(orc[op["node"]].feed(("flush",)))
             last_arrive = None
+            stack = []          # nodes whose update() is in progress, outermost first (reconstructed from who -> node arrivals)
             for ei, e in enumerate(log):
                 if e[0] == "arrive":
                     d, who, v, tags = e[1], e[2], graphlib.decanon(e[3]), e[4]
                     last_arrive = d
+                    if not stack and who is not None:
+                        stack = [who]
+                    while stack and stack[-1] != who:
+                        stack.pop()
+                    stack.append(d)
+                    if d in tainted:
+                        continue
                     if exp_queue.get(d):
                         bad = ("node %d (%s) did not emit %r before its next arrival" % (d, nodes[d]["kind"], exp_queue[d][0]), d)
                         break
@@ -330,12 +339,25 @@ def oracle(case, obs, check=("sem", "md", "edges", "refs", "early", "emitwait", 
                             # an exception captured by a coroutine-style node surfaces through the awaitable only
                             # when its other children are done; nothing to compare yet
                             err = err or "raised:" + oe.args[0]
+                        if case["mode"] == "async" and any(nodes[j]["kind"] == "partition" for j in stack[:-1]):
+                            # the frames between the failing node and the coroutine that captures the exception are aborted:
+                            # whatever else those nodes were about to emit for this arrival is void
+                            for j in reversed(stack[:-1]):
+                                if exp_queue.get(j):
+                                    # its emission loop was cut short: what it still holds is implementation-defined
+                                    # (model and implementation are compared on it, the documented meaning says nothing)
+                                    tainted.add(j)
+                                exp_queue[j] = []
+                                if nodes[j]["kind"] == "partition":
+                                    break
                         elif not err or err != "raised:" + oe.args[0]:
                             bad = ("node %d (%s) function fails with %s on %r but emit reported %r" % (d, nodes[d]["kind"], oe.args[0], v, err), d)
                             break
                     exp_queue[d] = list(outs)
                 elif e[0] == "emit":
                     n, v, tags = e[1], graphlib.decanon(e[2]), e[3]
+                    if n in tainted:
+                        continue
                     if nodes[n]["kind"] == "source" and not exp_queue.get(n):
                         continue      # top-level emit at a source (or emit_anywhere)
                     if op["op"] == "emit" and op["node"] == n and ei == 0:
